@@ -633,6 +633,14 @@ impl<'lib> GdsExporter<'lib> {
 //@   before /^        Ok\(strukt_option\)$/
 //|         proof { assert(self.ctx@ =~= old(self).ctx@); }
 //@ end
+//@ fn layout21raw/src/gds.rs :: impl<'lib> GdsExporter<'lib> :: fn export
+//@   ret r
+//@   spec
+//|     requires cells_pre(lib.cells@),
+//|     // the public entry: what export_lib produces for this library
+//|     ensures r is Ok ==> r->Ok_0.name@ == lib.name@ && r->Ok_0.units.0 == gds_units_of(lib.units).0 && r->Ok_0.units.1 == gds_units_of(lib.units).1
+//|         && structs_are(r->Ok_0.structs@, lib.cells@),
+//@ end
 //@ fn layout21raw/src/gds.rs :: impl<'lib> GdsExporter<'lib> :: fn export_lib
 //@   ret r
 //@   spec
